@@ -42,6 +42,10 @@ func (n *NodeInformation) Store(ctx context.Context, storage nodeenrollment.Stor
 		if err != nil {
 			return fmt.Errorf("(%s) error reading wrapper key id: %w", op, err)
 		}
+		if keyId == "" {
+			// Load recognizes sealed records by a non-empty wrapping key ID
+			return fmt.Errorf("(%s) storage wrapper has no key id", op)
+		}
 		infoToStore.WrappingKeyId = keyId
 
 		if len(infoToStore.ServerEncryptionPrivateKeyBytes) > 0 {
